@@ -14,6 +14,7 @@ import Driver.C11
 import Driver.C18
 import Driver.C19
 import Driver.C06
+import Driver.C17
 open AITB
 
 def handleLine (line : String) : String :=
@@ -36,6 +37,7 @@ def handleLine (line : String) : String :=
   | "C18" :: rest => DrvC18.handle rest
   | "C19" :: rest => DrvC19.handle rest
   | "C06" :: rest => DrvC06.handle rest
+  | "C17" :: rest => DrvC17.handle rest
   | _ => "bad-op"
 
 partial def loop (h : IO.FS.Stream) (out : IO.FS.Stream) : IO Unit := do
